@@ -19,6 +19,7 @@ import (
 	sdk "github.com/cosmos/cosmos-sdk/types"
 	authtypes "github.com/cosmos/cosmos-sdk/x/auth/types"
 	"github.com/cosmos/cosmos-sdk/x/authz"
+	"github.com/cosmos/cosmos-sdk/x/feegrant"
 	banktypes "github.com/cosmos/cosmos-sdk/x/bank/types"
 	stakingtypes "github.com/cosmos/cosmos-sdk/x/staking/types"
 
@@ -53,6 +54,11 @@ type AnteCase struct {
 	Fees     [][2]string `json:"fees,omitempty"`       // offered fee coins (denom, amount); overrides fee_denom / fee_amount
 	Prices   [][2]string `json:"gas_prices,omitempty"` // settlement gas price parameter (denom, Dec), empty = default
 	Q        string      `json:"oracle_fee,omitempty"`
+	// fee granter named by the transaction (settlus route only) and the allowance it has given the payer before:
+	// "" none, "unlimited", "exact" (spend limit = the fixed fee), "short" (one unit less), "other" (another denomination)
+	UseGranter bool   `json:"use_granter,omitempty"`
+	Granter    int    `json:"granter,omitempty"`
+	Grant      string `json:"grant,omitempty"`
 	ExpectFail bool      `json:"expect_fail,omitempty"` // the actor is not an admin: the (admitted) messages fail in their handler
 	FirstBlock bool      `json:"first_block,omitempty"` // deliver the transaction in the first block after genesis (no base history)
 }
@@ -232,6 +238,39 @@ func nestChain(depth int, leaf string) AMsg {
 		m = AMsg{Kind: "exec", Inner: []AMsg{m}}
 	}
 	return m
+}
+
+// allowance returns the spend limit of the allowance the granter gives the payer before the case (nil: no limit) and
+// whether there is an allowance at all. The fixed fee is recomputed here from the parameters of the case.
+func (c AnteCase) allowance(e *Exec) (sdk.Coins, bool) {
+	if !c.UseGranter || c.Grant == "" {
+		return nil, false
+	}
+	if c.Grant == "unlimited" {
+		return nil, true
+	}
+	denom, req := "", sdk.ZeroInt()
+	gas := settlementGas(c.Msgs)
+	for _, p := range e.gasPrices {
+		r := p.Amount.MulInt(sdk.NewIntFromUint64(gas)).TruncateInt()
+		if c.offered().AmountOf(p.Denom).GTE(r) {
+			denom, req = p.Denom, r
+			break
+		}
+	}
+	other := sdk.NewCoins(sdk.NewCoin("utwo", sdk.NewInt(1000)))
+	if denom == "utwo" {
+		other = sdk.NewCoins(sdk.NewCoin("utok", sdk.NewInt(1000)))
+	}
+	switch {
+	case denom == "" || c.Grant == "other":
+		return other, true
+	case c.Grant == "exact" && req.IsPositive():
+		return sdk.NewCoins(sdk.NewCoin(denom, req)), true
+	case c.Grant == "short" && req.GTE(sdk.NewInt(2)):
+		return sdk.NewCoins(sdk.NewCoin(denom, req.SubRaw(1))), true
+	}
+	return other, true
 }
 
 func settlementGas(ms []AMsg) uint64 {
@@ -450,6 +489,12 @@ func GenAnteCase(seed uint64, idx int) AnteCase {
 	if len(c.Msgs) == 1 && isO(c.Msgs[0].Kind) && r.Chance(35) {
 		c.FeePayer = []int{roleOperator, roleFeeder, roleFormer, roleStranger}[r.Intn(4)]
 	}
+	// a fee granter on the settlus route: somebody else's account is to be charged the fixed fee
+	if (allS || len(c.Msgs) == 1 && isO(c.Msgs[0].Kind)) && r.Chance(30) {
+		c.UseGranter = true
+		c.Granter = []int{roleStranger, roleFormer, roleOperator, roleAdmin2, c.Actor}[r.Intn(5)]
+		c.Grant = []string{"", "unlimited", "exact", "short", "other", "unlimited", "exact", "short"}[r.Intn(8)]
+	}
 	return c
 }
 
@@ -477,7 +522,8 @@ type AnteObs struct {
 	OracleChanged   bool
 	SettleChanged   bool
 	ValidatorsAdded bool
-	PayerDelta      [][2]string // denom, amount: what the ante handler took from the fee payer (negative)
+	PayerDelta      [][2]string // denom, amount: what the ante handler took from the account that has to pay: the fee granter if one is named, else the fee payer (negative)
+	PayerDebited    bool        // a fee payer that is not that account was debited by the ante handler
 	CollectorDelta  [][2]string // ... and sent to the fee collector
 	PoolDelta       [][2]string // ... and to the oracle reward pool
 	Burned          string      // what the evmos post handler burnt from the fee collector afterwards
@@ -588,6 +634,17 @@ func runAnteCase(c AnteCase) (*Exec, *anteExec, AnteObs, string) {
 		ts.FeePayer = ch.Accts[c.FeePayer].Addr
 		payer = ts.FeePayer
 	}
+	charged := payer
+	if c.UseGranter {
+		gaddr := ch.Accts[c.Granter].Addr
+		ts.FeeGranter = gaddr
+		charged = gaddr
+		if lim, ok := c.allowance(e); ok && !gaddr.Equals(payer) {
+			if err := ch.App.FeeGrantKeeper.GrantAllowance(ch.Ctx(), gaddr, payer, &feegrant.BasicAllowance{SpendLimit: lim}); err != nil {
+				panic("ante case: grant allowance: " + err.Error())
+			}
+		}
+	}
 	// model state before the transaction
 	model := x.modelState()
 	od, sd := oracleDigest(e), settleDigest(e)
@@ -628,8 +685,10 @@ func runAnteCase(c AnteCase) (*Exec, *anteExec, AnteObs, string) {
 		}
 		switch ev.Type {
 		case "coin_spent":
-			if attr(ev, "spender") == payer.String() {
+			if attr(ev, "spender") == charged.String() {
 				add("spent", attr(ev, "amount"), true)
+			} else if attr(ev, "spender") == payer.String() {
+				o.PayerDebited = true
 			}
 		case "coin_received":
 			if attr(ev, "receiver") == coll {
@@ -759,10 +818,26 @@ func runAnteCmd(args []string) {
 		for _, p := range e.gasPrices {
 			prices = append(prices, fmt.Sprintf("(%s, %s)", cStr(p.Denom), cZ(p.Amount.BigInt())))
 		}
-		items = append(items, fmt.Sprintf("mkACase %s %d %s %s %s %s (mkFP %s %s) %d %s %s %s %s %s %s %s %s %d",
+		granter, allowance := "None", "None"
+		if c.UseGranter {
+			granter = fmt.Sprintf("(Some %s)", e.acctZ(c.Granter))
+			if lim, ok := c.allowance(e); ok {
+				if lim == nil {
+					allowance = "(Some None)"
+				} else {
+					var ls []string
+					for _, coin := range lim {
+						ls = append(ls, fmt.Sprintf("(%s, %s)", cStr(coin.Denom), cZ(coin.Amount.BigInt())))
+					}
+					allowance = fmt.Sprintf("(Some (Some %s))", cList(ls))
+				}
+			}
+		}
+		items = append(items, fmt.Sprintf("mkACase %s %d %s %s %s %s (mkFP %s %s) %d %s %s %s %s %s %s %s %s %d %s %s %s",
 			model, e.C.Height, cList(ms), fp, cList(signers), offered, cList(prices), cZ(e.oracleFee.BigInt()), c.Gas, cBool(c.ExpectFail),
 			classCoq(o.Class), cBool(o.OracleChanged), cBool(o.SettleChanged), cBool(o.ValidatorsAdded),
-			pairsCoq(o.PayerDelta), pairsCoq(o.CollectorDelta), pairsCoq(o.PoolDelta), o.GasUsed))
+			pairsCoq(o.PayerDelta), pairsCoq(o.CollectorDelta), pairsCoq(o.PoolDelta), o.GasUsed,
+			granter, allowance, cBool(!o.PayerDebited)))
 		if o.Class == "panic" {
 			fmt.Printf("ANTE-PANIC case=%d %s\n", i, o.Log)
 		}
